@@ -300,9 +300,10 @@ def scalar_values(t):
         lo, hi = INT_RANGE[t]
         return st.one_of(st.integers(lo, hi), st.sampled_from([lo, hi, 0, 1, hi - 1, lo + 1]), st.integers(max(lo, -5), 5))
     if t == "Float64":
-        return st.one_of(st.floats(width=64), st.sampled_from([0.0, -0.0, 1.5, float("inf"), float("-inf"), float("nan")]), st.integers(-9, 9).map(float))
+        return st.one_of(st.floats(width=64), st.sampled_from([0.0, -0.0, 1.5, float("inf"), float("-inf"), float("nan"), 5e-324, -5e-324, 2.225073858507201e-308]), st.integers(-9, 9).map(float))
     if t == "Float32":
-        return st.one_of(st.floats(width=32), st.sampled_from([0.0, -0.0, 1.5, float("inf"), float("-inf"), float("nan")]), st.integers(-9, 9).map(float))
+        # 2**-149 and (1 - 2**-23) * 2**-126: the smallest and the largest subnormal of the kind
+        return st.one_of(st.floats(width=32), st.sampled_from([0.0, -0.0, 1.5, float("inf"), float("-inf"), float("nan"), 2.0 ** -149, -(2.0 ** -149), 1.1754942106924411e-38]), st.integers(-9, 9).map(float))
     raise ValueError(t)
 
 
